@@ -60,5 +60,7 @@ void ConstantDistribution::restrictToConstraint(const ConstraintInterface& c)
 
   AbstractDiscreteDistribution::restrictToConstraint(c);
 
-  getParameter_("value").setConstraint(intMinMax_);
+  // The parameter gets its own copy: the domain object is modified in place by later calls, and the parameters
+  // of the copies of this distribution share their constraint object with this parameter.
+  getParameter_("value").setConstraint(std::shared_ptr<ConstraintInterface>(intMinMax_->clone()));
 }
